@@ -6,8 +6,10 @@ value-type reference semantics with no lifetime error and exactly-once destructi
 histories, for a lifetime-instrumented payload (event-exact), std::string, std::vector<int>, an
 over-aligned struct and int, in a normal and in an odd-offset placement, under ASan+UBSan; plus the
 layout facts alignof/sizeof(Optional<T>) against the model's layout function."""
-import itertools, json, os, re
+import itertools, json, os, re, sys
 import vlib
+sys.path.insert(0, os.path.dirname(os.path.abspath(__file__)))
+import factgen  # noqa: E402
 
 REPO_SRC = ["rkcommon/utility/demangle.cpp"]
 NS = 4
@@ -371,10 +373,106 @@ def judge(ctx, what, cases, exe, hargs, full, mvz, mism, crashes, label, seen_bu
                           % (label, cases[i], il[:300], ml[:300]))
 
 
+# ------------------------------------------------------------------ source-derived facts (Tie: AST -> gen/Facts.v)
+FACT_THMS = {"facts_optional_members": "table", "facts_optional_comparisons": "cmp", "facts_optional_accessors": "misc",
+             "facts_optional_layout": "lay", "facts_any_members": "any", "facts_any_holder_unique": "holder"}
+
+
+def regen_facts(ctx):
+    """Regenerate coq/C09/gen/Facts.v from the clang AST of the working tree (props/C09/factgen.py)."""
+    gen_v = os.path.join(ctx.coqdir, "gen", "Facts.v")
+    js = os.path.join(ctx.build, "facts.json")
+    try:
+        factgen.main(["--repo", ctx.repo, "--out", gen_v, "--json", js, "--work", os.path.join(ctx.build, "ast")])
+        facts = json.load(open(js))
+    except Exception as ex:
+        facts = factgen.unknown_facts("fact extraction failed: %r" % (ex,))
+        os.makedirs(os.path.dirname(gen_v), exist_ok=True)
+        open(gen_v, "w").write(factgen.coq_text(facts))
+    if facts.get("notes"):
+        ctx.log("fact extractor notes: " + "; ".join(facts["notes"])[:600])
+    ctx.cov["source_facts"] = facts
+    return facts
+
+
+def coq_diag(ctx, facts):
+    """Which entries of the source-derived tables differ from Micro.v's, and what Micro.v expects there."""
+    goals = [("M:" + m, "gen_table %s = model_table %s" % (m, m), "model_table %s" % m) for m in factgen.METHS]
+    goals += [("C:" + o, "gen_cmp %s = model_cmp %s" % (o, o), "model_cmp %s" % o) for o in ("CEq", "CNe", "CLt", "CLe", "CGt", "CGe")]
+    goals += [("A:" + m, "gen_any %s = model_any %s" % (m, m), "model_any %s" % m) for m in factgen.AMETHS]
+    goals += [("misc", "gen_misc = model_misc", "model_misc"), ("lay", "gen_lay = model_lay", "model_lay"),
+              ("holder", "gen_holder = model_holder", "model_holder")]
+    lines = ["From Coq Require Import List NArith.", "From C09 Require Import Model Micro.", "From C09.gen Require Import Facts.",
+             "Import ListNotations."]
+    for tag, g, e in goals:
+        lines.append('Goal True. first [ assert (%s) by reflexivity; idtac "@@OK %s" | idtac "@@DIFF %s" ]. Abort.' % (g, tag, tag))
+    for tag, g, e in goals:
+        lines.append('Goal True. idtac "@@EXP %s". Abort.' % tag)
+        lines.append("Eval cbv in %s." % e)
+    lines.append('Goal True. idtac "@@END". Abort.')
+    f = os.path.join(ctx.build, "FactsDiag.v")
+    open(f, "w").write("\n".join(lines) + "\n")
+    rc, out = vlib.sh(["coqc"] + vlib.coqproject_args(ctx.coqdir) + [f], cwd=ctx.build, timeout=120)
+    diff = re.findall(r"@@DIFF (\S+)", out)
+    exp = {}
+    for m in re.finditer(r"@@EXP (\S+)\n(.*?)(?=@@EXP|@@END)", out, re.S):
+        exp[m.group(1)] = " ".join(m.group(2).split())
+    if rc != 0 and not diff:
+        diff = ["(diagnostic script failed: %s)" % out[-300:]]
+    return diff, exp
+
+
+def source_entry(facts, tag):
+    if tag.startswith("M:"):
+        e = facts["table"][tag[2:]]
+        return "{| mf_fresh := %s; mf_prog := [%s] |}" % ("true" if e["fresh"] else "false", "; ".join(e["prog"]))
+    if tag.startswith("C:"):
+        return facts["cmp"][tag[2:]]
+    if tag.startswith("A:"):
+        return "[%s]" % "; ".join(facts["any"][tag[2:]])
+    return json.dumps(facts.get(tag))
+
+
+def facts_report(ctx, facts, res):
+    broken_syn = [t for t in FACT_THMS if not res.get(t)]
+    sem_thms = [t for t in res if t.startswith("source_")]
+    broken_sem = [t for t in sem_thms if not res[t]]
+    ctx.trusted.append("fact extractor props/C09/factgen.py over `clang++ -std=c++11 -fsyntax-only -Xclang -ast-dump=json` of an instantiation "
+                       "unit (Optional<P> with a non-trivial alignas(32) payload, Optional<Q> convertible, Any with int): classifies the "
+                       "statements of each member into the micro-operations of coq/C09/Micro.v; anything unrecognised becomes "
+                       "OUnknown/TUnknown and fails the Coq obligations")
+    if not broken_syn and not broken_sem:
+        ctx.cov["source_facts_status"] = "all source-derived tables equal the model's (PropertiesFacts.v) and satisfy the member contracts (PropertiesFactsSem.v)"
+        return
+    diff, exp = coq_diag(ctx, facts)
+    first_sem = None
+    m = re.search(r'File "\./FactsSem\.v", line (\d+)', getattr(ctx, "coq_log", ""))
+    if m:
+        src = open(os.path.join(ctx.coqdir, "FactsSem.v")).read().split("\n")[:int(m.group(1))]
+        names = [re.match(r"Lemma (\w+)", l).group(1) for l in src if re.match(r"Lemma (\w+)", l)]
+        first_sem = names[-1] if names else None
+    details = []
+    for tag in diff:
+        if tag.startswith("("):
+            details.append(tag); continue
+        details.append("%s: working tree %s  |  model %s" % (tag, source_entry(facts, tag), exp.get(tag, "?")))
+    sem_txt = ("the member contracts of the extracted programs (PropertiesFactsSem.v) still hold: a re-sequencing the model must follow"
+               if not broken_sem else
+               "the member contracts of the extracted programs are ALSO broken (first failing: %s)" % (first_sem or ", ".join(broken_sem)))
+    ctx.cov["source_facts_diff"] = {"differing_entries": details, "contracts": sem_txt}
+    ctx.log("source-derived tables differ from the model's in %d entr%s:" % (len(diff), "y" if len(diff) == 1 else "ies"))
+    for d in details:
+        ctx.log("   " + d[:400])
+    ctx.log("   " + sem_txt)
+    ctx.broken.append("source-derived micro-op table differs from the model: " + "; ".join(details)[:1500] + " -- " + sem_txt)
+
+
 def run(ctx):
     if getattr(ctx, "replay", None):
         return replay(ctx)
-    ctx.coq_check(("Properties.v",))
+    facts = regen_facts(ctx)
+    res = ctx.coq_check(("Properties.v", "PropertiesFacts.v", "PropertiesFactsSem.v"))
+    facts_report(ctx, facts, res)
     model = ctx.extract(snippets=["conv_N.ml"])
     exes = ctx.cxx_many([
         dict(sources=["harness.cpp"], out="harness", repo_sources=REPO_SRC, sanitize="asan"),
@@ -498,7 +596,7 @@ def run(ctx):
                         "observed by the instrumented payload in the harness, not proved",
                         "alignment is a compile-time fact read from the compiler for 15 payload types and cross-checked by UBSan at odd offsets"]
     if ctx.thorough():
-        ctx.coq_thorough_chk(["C09.Properties"])
+        ctx.coq_thorough_chk(["C09.Properties", "C09.PropertiesFacts", "C09.PropertiesFactsSem"])
 
 
 def replay(ctx):
